@@ -1,9 +1,126 @@
 import ShpanVerif.Util.Parse
-/- Driver handler for C10 (stub: replaced when the property's model lands). -/
+import ShpanVerif.Drive.QueryIO
+import ShpanVerif.Model.QueryRef
+/-
+Driver handler for C10 (tsquery is type-sound).  Case grammar and observation format: notes/C10-protocol.md.
+  model  = the executable model (`execR`/`execD` with the Float instance of `Ops`) rendered in the observation format
+  spec   = the property's clauses evaluated on the OBSERVATION by independent list-level checks:
+           no record pulled during Execute; unique non-empty URNs, valid types; every row has one cell per field,
+           nil only under a not-required field, dynamic Go type = declared type; strictly increasing timestamps;
+           and a query the reference type checker rejects must have been rejected.
+-/
 namespace ShpanVerif.Drive.C10
+open ShpanVerif.Util ShpanVerif.Model.Query ShpanVerif.Drive.QueryIO
+
+def O := floatOps
+
+def sampleFor : DataType → V × V
+  | .integer => (.int 7, .int 2)
+  | .decimal => (.dec 7.5, .dec 2.0)
+  | .string => (.str "a", .str "b")
+  | .boolean => (.bool true, .bool false)
+  | _ => (.nil, .nil)
+
+def isTranscendental : UnOp → Bool
+  | .log | .log10 | .exp | .sin | .cos | .tan => true
+  | _ => false
+
+/-- the hand-written operator tables of the model, printed like the real table functions -/
+def tblModel (ws : List String) : Option String :=
+  match ws with
+  | ["bin", op, dt] => do
+    let op ← parseBinOp op
+    let dt ← parseDt dt
+    match binFunc O op dt with
+    | none => pure "reject"
+    | some f =>
+      let (a, b) := sampleFor dt
+      match f a b with
+      | some v => pure ("ok " ++ fmtCell false v)
+      | none => pure "ok x:unexpected"
+  | ["un", op, dt] => do
+    let op ← parseUnOp op
+    let dt ← parseDt dt
+    match unFunc O op dt with
+    | none => pure "reject"
+    | some f =>
+      let a : V := if dt == .integer then .int 9 else .dec 2.25
+      match f a with
+      | some v => pure ("ok " ++ fmtCell (isTranscendental op) v)
+      | none => pure "ok x:unexpected"
+  | ["cond", op, dt] => do
+    let op ← parseCondOp op
+    let dt ← parseDt dt
+    match condFunc O op dt with
+    | none => pure "reject"
+    | some f =>
+      let (a, b) := sampleFor dt
+      match f a b with
+      | some v => pure ("ok " ++ fmtCell false (.bool v))
+      | none => pure "ok x:unexpected"
+  | ["cast", a, b] => do
+    let a ← parseDt a
+    let b ← parseDt b
+    match castFunc O a b with
+    | none => pure "reject"
+    | some f =>
+      let s : V := match a with
+        | .integer => .int 42
+        | .decimal => .dec 2.5
+        | .string => .str "17"
+        | .boolean => .bool true
+        | .timestamp => .ts 5
+        | .bogus => .nil
+      match f s with
+      | some v => pure ("ok " ++ fmtCell false v)
+      | none => pure "ok casterr"
+  | ["red", rt, dt] => do
+    let rt ← parseRedType rt
+    let dt ← parseDt dt
+    match redFunc O rt dt with
+    | none => pure "reject"
+    | some f =>
+      let cell := match dt with
+        | .integer => (f [.int 7, .int 2, .int 9]).map (fmtCell false)
+        | .decimal => (f [.dec 7.5, .dec 2.0, .dec 9.25]).map (fmtCell false)
+        | _ => some "-"
+      pure s!"ok {fmtDt (redResultType rt dt)} {boolStr (redIdentity rt)} {cell.getD "x:unexpected"}"
+  | ["dtype", dt] => do
+    let dt ← parseDt dt
+    pure s!"ok valid={boolStr dt.valid} numeric={boolStr dt.isNumeric}"
+  | _ => none
 
 /-- returns (model output, spec verdict on the observation, reason) -/
-def handle (_c _obs : String) : String × Bool × String :=
-  ("unimplemented", false, "no model yet")
+def handle (c obs : String) : String × Bool × String :=
+  match words c with
+  | "tbl" :: ws =>
+    match tblModel ws with
+    | some m => (m, true, "")
+    | none => ("bad-case", false, "unparsable tbl case")
+  | _ =>
+    match parseQCase c with
+    | none => ("bad-case", false, "unparsable case")
+    | some qc =>
+      let (model, inputsOk, refRejects) : String × Bool × Bool :=
+        match qc with
+        | .rep mask f t q =>
+          ((match inputErrR q with
+              | some e => rejectStr e
+              | none => fmtRResult mask (execR O false f t q)), inputsOkR q,
+            !Ref.hasReductionR q && (Ref.refR O false f t q).isNone)
+        | .ds mask f t q =>
+          ((match inputErrD q with
+              | some e => rejectStr e
+              | none => fmtDResult mask (execD O false f t q)), inputsOkD q,
+            !Ref.hasReductionD q && (Ref.refD O false f t q).isNone)
+        | .tw .. => ("bad-case", false, false)
+      if !inputsOk then (model, true, "inputs not schema-conforming: property does not apply")
+      else match parseObs obs with
+        | none => (model, false, "observation not in the protocol format (plan-time panic or malformed)")
+        | some o =>
+          let (ok, why) := soundObs o
+          if !ok then (model, false, why)
+          else if refRejects && o.reject.isNone then (model, false, "ill-typed query (reference type checker) was not rejected")
+          else (model, true, "")
 
 end ShpanVerif.Drive.C10
